@@ -330,6 +330,7 @@ def run(chk):
 
     hunt2_rules(chk, repo, hf)
     hunt3_rules(chk, repo)
+    hunt4_rules(chk, repo)
 
 
 def _self_attrs_set(cls, stmts, depth=1):
@@ -394,6 +395,43 @@ def hunt3_rules(chk, repo):
                               f"{cname} closes the connection (1006) for a missing PONG although its own flow control has paused reading (the application is slow to consume a burst): the PONG sits unread in the socket buffer, the peer is alive")
         if not verdicts:
             chk.analysis_error(f"C12.heartbeat.paused: {cname}._pong_not_received does not call _handle_ping_pong_exception")
+
+
+def hunt4_rules(chk, repo):
+    """Rules written after the fourth defect hunt (F215, F216)."""
+    from sa.cfg import EXPLICIT, cfg_of
+    rd = repo.cls(MOD, "WebSocketReader")
+    q = repo.cls(MOD, "WebSocketDataQueue")
+    fd = rd.methods["_feed_data"]
+    # ---- C12.backpressure: pausing the transport stops the next read, not the decoding of the chunk already in hand -----------------------------
+    loops = [l for l in ast.walk(fd.node) if isinstance(l, ast.While) and any(isinstance(c, ast.Call) and norm.raw(c.func) == "self._handle_frame" for c in ast.walk(l))]
+    if not loops:
+        chk.analysis_error("C12.backpressure: the frame loop of WebSocketReader._feed_data was not found")
+    else:
+        stops = [b for b in ast.walk(loops[0]) if isinstance(b, (ast.Break, ast.Return)) and any(
+            l.pos and ("queue._size" in l.text or "queue._limit" in l.text) and (">" in l.text) for l in PC.units(PC.pc(b, stop=loops[0], raw=True)))]
+        resume = [c for c in prog.calls_in(q.methods["_read_from_buffer"].node) if isinstance(c.func, ast.Attribute) and c.func.attr in ("feed_data", "_feed_data")
+                  and any(l.pos and "self._size < self._limit" in l.text for l in PC.units(PC.pc(c, raw=True)))]
+        if stops and resume:
+            chk.ok("C12.backpressure", stops[0], "the frame loop stops once the queue is over its limit; the rest of the chunk is kept and decoded when the consumer has drained the queue")
+        else:
+            chk.violation("C12.backpressure", loops[0], "while <frames in the chunk>: self._handle_frame(...)", "if self.queue._size > self.queue._limit: <keep the rest>; break  (+ resume from _read_from_buffer)",
+                          "the queue's flow control pauses the transport, which only stops the next read: every frame of the chunk in hand is still inflated and queued - sixty 4 KiB compressed frames in one 64 KiB read put 67 MB of messages into a queue limited to 512 KiB")
+    # ---- C12.handshake.body: the frame reader is installed only when the handshake request is read to its end ---------------------------------------
+    wr = repo.cls("aiohttp/web_ws.py", "WebSocketResponse")
+    pr = wr.methods["prepare"]
+    g = cfg_of(pr.node)
+    inst = [n for n in g.nodes if K.node_has(n, "self._post_start($R, $P, $W)")]
+    rel = [n for n in g.nodes if any(isinstance(a, ast.Await) and isinstance(a.value, ast.Call) and norm.raw(a.value.func) in ("request.release", "request.read", "request.content.read") for a in ast.walk(n.ast) if n.ast is not None)]
+    if not inst:
+        chk.analysis_error("C12.handshake.body: `self._post_start(...)` not found in WebSocketResponse.prepare")
+    else:
+        p = g.find_path([g.entry], lambda n: n in inst, lambda n: n in rel, EXPLICIT)
+        if p is None:
+            chk.ok("C12.handshake.body", inst[0].ast, "prepare(): a declared body of the handshake request is consumed as HTTP before the WebSocket reader is installed")
+        else:
+            chk.violation("C12.handshake.body", inst[0].ast, K.short(inst[0].ast), "await request.release() before self._post_start(...)",
+                          "an upgrade request that declares a body (`Content-Length: 5`) whose bytes arrive after the handler called prepare(): they are routed to the frame reader and parsed as WebSocket frames (close 1002) - the same byte stream in one segment is a working session", path=g.fmt_path(p))
 
 
 def hunt2_rules(chk, repo, hf):
